@@ -5,7 +5,7 @@
    provided every recorded denominator is non-zero and not below the cut-off (step_ok) and all
    steps were performed.  rfi_rational2_n / rfi_rational3_n lift this to n >= m. *)
 Require Import List ZArith QArith Qcanon Lia Bool Field.
-Require Import LV.Base.QcI LV.Interp.QOrd LV.Interp.RfiModel LV.Interp.RfiProofs LV.Interp.RfiWindow LV.Interp.RfiRational.
+Require Import LV.Base.QcI LV.Interp.QOrd LV.Interp.RfiModel LV.Interp.RfiProofs LV.Interp.RfiWindow LV.Interp.RfiRational LV.Interp.C10Lemmas.
 Import ListNotations.
 Local Open Scope Z_scope.
 Add Field qif3 : qi_field.
@@ -152,8 +152,6 @@ Qed.
 End R2.
 
 (* ---------------------------------------------------------------- any length *)
-Definition xat (xp : list Qc) (i : Z) : Qc := nth (Z.to_nat i) xp 0%Qc.
-Definition yat (yp : list qi) (i : Z) : qi := nth (Z.to_nat i) yp qi0.
 
 Lemma rfi_rational2_n eps cut xp yp n (k p : qi) x hint v s tr :
   let f := fun t : Qc => qi_div k (qi_add (qx t) p) in
